@@ -51,7 +51,9 @@ func init() {
 		Outside:     []string{"casts (int)/(float)/(string)/(bool): need package std, whose import drags database drivers into the SSA program", "string<->number juggling beyond the concrete pool", "** and . with symbolic numbers (number formatting / math.Pow are not encoded): concrete boundary pools there", "strings longer than 2 bytes"},
 	})
 
-	c17 := func(fn string, p map[string]int) RunDef { return RunDef{Fn: fn, Params: p, Tier: "quick", Reach: []string{"end"}} }
+	c17 := func(fn string, p map[string]int) RunDef {
+		return RunDef{Fn: fn, Params: p, Tier: "quick", Reach: []string{"end"}}
+	}
 	reg(Check{
 		ID:  "C17",
 		Pkg: "verif/harness/c17",
@@ -65,6 +67,42 @@ func init() {
 		Rule:        rule + "; script-side payloads are full-width symbolic ints/doubles/bools and fully symbolic byte strings (incl. non-UTF-8) of the stated length; the reflective path is driven through a real parsed script call",
 		Assumptions: []string{"reflect is modelled at contract level (TypeOf/ValueOf/Kind/NumIn/In/Call with the documented assignability panic/Convert/Int/Float/String/Bool)", "runtime.Caller returns a fixed location"},
 		Outside:     []string{"convertTypeAlias (reflection on named types) and struct methods via reflect_class.go", "arity 3, 64 KiB strings, std/system generated wrappers (all funnel through ConvertFromIndex)"},
+	})
+
+	c01 := func(fn string, p map[string]int, tier string, reach ...string) RunDef {
+		return RunDef{Fn: fn, Setup: "Setup", Params: p, Tier: tier, Reach: reach, FuelViolation: true}
+	}
+	reg(Check{
+		ID:  "C01",
+		Pkg: "verif/harness/c01",
+		Runs: []RunDef{
+			c01("H_lex", n(0), "quick", "lexed"), c01("H_lex", n(1), "quick", "lexed"),
+			c01("H_lex_template", n(0), "quick", "lexed"), c01("H_lex_template", n(1), "quick", "lexed"),
+			c01("H_parse", n(0), "quick", "parsed"), c01("H_parse", n(1), "quick", "parsed", "accepted", "rejected"),
+			c01("H_lex", map[string]int{"n": 2, "ctx": 0}, "quick", "lexed"),
+			c01("H_parse", map[string]int{"n": 2, "ctx": 0}, "quick", "parsed"),
+			c01("H_snip", n(0), "quick", "parsed", "accepted", "rejected", "ran"),
+			c01("H_snip", map[string]int{"n": 1, "lo": 0, "hi": 6}, "quickonly", "parsed", "accepted", "rejected", "ran"),
+			c01("H_snip", n(1), "thorough", "parsed", "accepted", "rejected", "ran"),
+			c01("H_lex", n(2), "thorough", "lexed"), c01("H_lex_template", n(2), "thorough", "lexed"),
+			c01("H_parse", n(2), "thorough", "parsed"),
+			c01("H_lex", map[string]int{"n": 3, "ctx": 0}, "thorough", "lexed"),
+		},
+		Rule: rule + "; the source is opener ‖ window (31 lexer-state openers, window = n arbitrary bytes at the end) or a one-construct snippet with the window inserted at / replacing every token (n=0: single-token deletion); " +
+			"exhausting the instruction budget (3·10^6 SSA instructions, inputs < 120 bytes) during lexing/parsing is reported as non-termination and replayed natively under a watchdog",
+		Assumptions: []string{"class autoload sees an empty file system", "running an accepted program gets a soft budget of 3·10^5 instructions (programs may legitimately loop); only a Go panic is a violation there"},
+		Outside:     []string{"windows longer than 3 bytes (2 inside snippets)", "holes in multi-construct files; the 330-file corpus as contexts", "HTML lexer (<!DOCTYPE path)", "convertAltPHPSyntax (.php mode, regexp based)", "stack-overflow depth (call depth capped at 3000 frames, never reached)"},
+	})
+	reg(Check{
+		ID:  "C18",
+		Pkg: "verif/harness/c01",
+		Runs: []RunDef{
+			c01("H_lex_spans", n(0), "quick", "lexed"), c01("H_lex_spans", n(1), "quick", "lexed"),
+			c01("H_lex_spans", map[string]int{"n": 2, "ctx": 0}, "quick", "lexed"),
+			c01("H_lex_spans", n(2), "thorough", "lexed"),
+		},
+		Rule:    rule + "; span laws asserted on every token of the real Tokenize output for opener ‖ symbolic window: 0<=Start<=End<=len, ordered/non-overlapping, Line = number of '\\n' before Start (sum of ite terms over symbolic bytes), Literal = src[Start:End] for identifier/number/variable tokens",
+		Outside: []string{"error-location clause (file:line of parse/runtime errors)", "columns inside re-lexed interpolation fragments", "HTML mode, LSP", "windows > 2 bytes"},
 	})
 
 	reg(Check{
